@@ -539,7 +539,7 @@ Lemma step_ClassRes s o :
   end.
 Proof.
   intros HI Hwf Hlim. destruct (step_spec P U T HU HP s o HI Hwf Hlim) as [_ Hr].
-  destruct o as [p now msg| | | | | | |]; cbn [StepRel] in Hr; try done.
+  destruct o as [p now msg| | | | | | | |]; cbn [StepRel] in Hr; try done.
   destruct (i_chain _ _ _ _ HI) as [tl Htl]. destruct Hwf as (HT & HUm & _).
   by eapply (Trans_classify P U T HU HP now).
 Qed.
@@ -722,7 +722,7 @@ Definition tr_msg : list header :=
   [tr_mk 301 100 ex_bits 2300; tr_mk 302 301 ex_bits 3600; tr_mk 303 302 ex_bits 4900;
    tr_mk 304 303 tr_hard 4960; tr_mk 305 304 tr_hard 5020].
 
-Lemma wf_hist_intro P ops : forallb (fun o => match o with OHeaders _ _ hs => zlen hs <? memCap P | ORollback _ | OHeadersF _ _ _ _ => false | _ => true end) ops = true ->
+Lemma wf_hist_intro P ops : forallb (fun o => match o with OHeaders _ _ hs => zlen hs <? memCap P | ORollback _ | OHeadersF _ _ _ _ | OHeadersR _ _ _ _ => false | _ => true end) ops = true ->
   1 + ops_size ops <= 1000000 -> wf_hist P ops.
 Proof.
   intros H Hs. split; [|done]. apply Forall_forall. intros o Ho. rewrite forallb_forall in H.
